@@ -74,9 +74,13 @@ def main():
     from tensora.format import parse_format
     from tensora.problem import Problem
 
-    reordered = TensorMethod(Problem(parse_assignment("y(i) = A(i,j) * x(j)").unwrap(),
-                                     {"A": parse_format("ds").unwrap(), "x": parse_format("d").unwrap(),
-                                      "y": parse_format("s").unwrap()}))
+    def reordered(**kw):
+        # a TensorMethod of its own that goes out of scope as soon as the call returns: the output outlives its kernel
+        tm = TensorMethod(Problem(parse_assignment("y(i) = A(i,j) * x(j)").unwrap(),
+                                  {"A": parse_format("ds").unwrap(), "x": parse_format("d").unwrap(),
+                                   "y": parse_format("s").unwrap()}))
+        return tm(**kw)
+
 
     B3 = Tensor.from_dok({(0, 1, 2): 1.0, (0, 3, 0): 2.0, (2, 0, 1): 3.0, (2, 4, 2): 4.0, (4, 2, 0): 5.0, (5, 4, 1): 6.0,
                           (5, 4, 2): 7.0}, dimensions=(6, 5, 3), format="sss")
@@ -245,6 +249,20 @@ def main():
                     tid_of.pop(n, None)
                 elif act == "collect":
                     pass
+                elif act == "drop_kernels":
+                    # every compiled kernel object goes away (as on cache eviction): live outputs must stay valid
+                    porc.cachable_tensor_method.cache_clear()
+                    gc.collect()
+                    absorb(drain())
+                    # compile the kernels again outside the recording (compilation allocates far more than the ring holds)
+                    lib.verif_record(0)
+                    for kd in ("sparse", "dense", "scalar", "empty", "sds"):
+                        tw, _ = make(kd)
+                        derive(tw, kd)
+                        tw = None
+                    gc.collect()
+                    lib.verif_reset()
+                    lib.verif_record(1)
                 t = None
                 src = None
                 obj = None
